@@ -486,3 +486,51 @@ Proof.
   - apply enc_list_ext. intros; apply IH.
   - apply enc_list_ext. intros; apply IH.
 Qed.
+
+(* the model records every pointer edge to a container: it is the instance of [enc_np] without
+   unrecorded edges *)
+Lemma enc_np_false_lemma : forall d h o ci v, enc_np (fun _ => false) d h o ci v = enc d h o ci v.
+Proof.
+  induction d as [|d IH]; intros h o ci v; simpl; [reflexivity|].
+  destruct v; try reflexivity; try apply IH.
+  - rewrite Bool.andb_true_r. destruct (chk o && cont_kind (cell h a)); [|apply IH].
+    destruct (push ci a); [|reflexivity]. rewrite IH. reflexivity.
+  - apply enc_list_ext. intros; apply IH.
+  - apply enc_list_ext. intros; apply IH.
+Qed.
+
+(* one unrecorded pointer edge on a cycle: T{F: &T}-like self reference whose only pointer is
+   dereferenced by the shortcut.  The hypotheses of C20_sound hold, yet every budget is exhausted. *)
+Definition h_np : heap := [VStruct [VPtr 0]].
+
+Lemma np_diverges : forall d,
+  enc_np (fun _ => true) d h_np (mkopts true false) [] (VPtr 0) = OFuel /\
+  enc_np (fun _ => true) d h_np (mkopts true false) [] (VStruct [VPtr 0]) = OFuel.
+Proof.
+  induction d as [|d [IH1 IH2]]; [split; reflexivity|].
+  split.
+  - cbn. exact IH2.
+  - cbn. rewrite IH1. reflexivity.
+Qed.
+
+Lemma np_refuted_lemma : exists (np : nat -> bool) (h : heap) (v : val) (R : nat),
+  nopush_wf h v R /\ cyclic_ptr h v /\ forall d, enc_np np d h (mkopts true false) [] v = OFuel.
+Proof.
+  exists (fun _ => true), h_np, (VPtr 0), 1.
+  assert (Hr : forall w, reach h_np (VPtr 0) w -> w = VPtr 0 \/ w = VStruct [VPtr 0]).
+  { apply (reach_closed h_np (fun w => w = VPtr 0 \/ w = VStruct [VPtr 0])); [left; reflexivity|].
+    intros w w' [ -> | -> ] He; inversion He; subst; cbn in *.
+    - right. reflexivity.
+    - match goal with H : _ \/ False |- _ => destruct H as [ <- | [] ] end. left. reflexivity. }
+  repeat apply conj.
+  - exists (fun v => match v with VStruct _ => 1 | _ => 0 end). split.
+    + intros w Hw. apply Hr in Hw. destruct Hw as [ -> | -> ]; cbn; lia.
+    + intros w w' Hw He Hnp. apply Hr in Hw. destruct Hw as [ -> | -> ]; inversion He; subst; cbn in *.
+      * exfalso. apply Hnp. exists 0. repeat split.
+      * match goal with H : _ \/ False |- _ => destruct H as [ <- | [] ] end. lia.
+  - exists 0, 1. repeat apply conj.
+    + apply reach_refl.
+    + reflexivity.
+    + eapply npS; [apply e_ptr|]. eapply npS; [apply e_struct; left; reflexivity|]. apply np0.
+  - intro d. apply np_diverges.
+Qed.
